@@ -6,7 +6,6 @@ import (
 	"go/constant"
 	"go/token"
 	"go/types"
-	"sort"
 	"strings"
 
 	"golang.org/x/tools/go/packages"
@@ -482,159 +481,7 @@ func c01Cmp(w *World, m *types.Func, op string) []string {
 }
 
 func c01TypeSelection(w *World, r *Report) {
-	// --- popCompareEqualityAndPush
-	eq := w.Method("xpath", "context", "popCompareEqualityAndPush")
-	fd, p := w.FuncDecl(eq)
-	preds := map[*types.Func]string{
-		w.Func("xpath", "isNodeset"): "nodeset", w.Func("xpath", "isBool"): "bool", w.Func("xpath", "isNum"): "num", w.Func("xpath", "isLiteral"): "lit",
-	}
-	popDatum := w.Method("xpath", "context", "popDatum")
-	// pop order
-	var popped []types.Object
-	for _, s := range fd.Body.List {
-		if as, ok := s.(*ast.AssignStmt); ok && len(as.Rhs) == 1 {
-			if ce, ok := as.Rhs[0].(*ast.CallExpr); ok && calleeOf(p, ce) == popDatum {
-				popped = append(popped, objOfIdent(p, as.Lhs[0]))
-			}
-		}
-	}
-	classify := func(pk *packages.Package, fdd *ast.FuncDecl, e ast.Expr, aliases map[types.Object]string) string {
-		kinds := map[string]bool{}
-		ast.Inspect(e, func(n ast.Node) bool {
-			switch x := n.(type) {
-			case *ast.CallExpr:
-				if k, ok := preds[calleeOf(pk, x)]; ok {
-					kinds[k] = true
-				}
-			case *ast.Ident:
-				if k, ok := aliases[pk.TypesInfo.Uses[x]]; ok {
-					kinds[k] = true
-				}
-			}
-			return true
-		})
-		var ks []string
-		for k := range kinds {
-			ks = append(ks, k)
-		}
-		sort.Strings(ks)
-		return strings.Join(ks, "+")
-	}
-	aliasesOf := func(pk *packages.Package, fdd *ast.FuncDecl) map[types.Object]string {
-		al := map[types.Object]string{}
-		for _, s := range fdd.Body.List {
-			if as, ok := s.(*ast.AssignStmt); ok && len(as.Rhs) == 1 && len(as.Lhs) == 1 {
-				if ce, ok := as.Rhs[0].(*ast.CallExpr); ok {
-					if k, ok := preds[calleeOf(pk, ce)]; ok {
-						al[objOfIdent(pk, as.Lhs[0])] = k
-					}
-				}
-			}
-		}
-		return al
-	}
-	// which comparator parameter an arm invokes
-	paramIndex := func(pk *packages.Package, fdd *ast.FuncDecl, n ast.Node) []int {
-		var idx []int
-		ast.Inspect(n, func(x ast.Node) bool {
-			if ce, ok := x.(*ast.CallExpr); ok {
-				for i := 0; i < 3; i++ {
-					if o := objOfIdent(pk, ce.Fun); o != nil && o == paramObj(pk, fdd, i) {
-						idx = append(idx, i)
-					}
-				}
-			}
-			return true
-		})
-		return idx
-	}
-	var tagless *ast.SwitchStmt
-	ast.Inspect(fd.Body, func(n ast.Node) bool {
-		if s, ok := n.(*ast.SwitchStmt); ok && s.Tag == nil && tagless == nil {
-			tagless = s
-		}
-		return true
-	})
-	if tagless == nil || len(popped) != 2 {
-		r.Fail("R01.2", "popCompareEqualityAndPush shape", fd.Pos(), "expected two pops and a tagless switch")
-	} else {
-		al := aliasesOf(p, fd)
-		var order []string
-		var okArgs = true
-		for _, c := range tagless.Body.List {
-			cc := c.(*ast.CaseClause)
-			if cc.List == nil {
-				continue
-			}
-			k := classify(p, fd, cc.List[0], al)
-			idx := paramIndex(p, fd, cc)
-			cmp := ""
-			if len(idx) == 1 {
-				cmp = []string{"boolCompare", "litCompare", "numCompare"}[idx[0]]
-			}
-			order = append(order, k+"→"+cmp)
-			// comparator arguments must be (second-popped, first-popped)
-			ast.Inspect(cc, func(x ast.Node) bool {
-				if ce, ok := x.(*ast.CallExpr); ok && len(ce.Args) == 2 {
-					if o := objOfIdent(p, ce.Fun); o != nil && (o == paramObj(p, fd, 0) || o == paramObj(p, fd, 1) || o == paramObj(p, fd, 2)) {
-						if objOfIdent(p, ce.Args[0]) != popped[1] || objOfIdent(p, ce.Args[1]) != popped[0] {
-							okArgs = false
-						}
-					}
-				}
-				return true
-			})
-		}
-		got := strings.Join(order, " ; ")
-		want := "nodeset→ ; bool→boolCompare ; num→numCompare ; lit→litCompare"
-		r.Check(got == want, "R01.2", "popCompareEqualityAndPush case order", tagless.Pos(), got,
-			"type selection is ["+got+"]; XPath §3.4 requires node-set first, then boolean (compared as booleans), then number, then string: ["+want+"]")
-		r.Check(okArgs, "R01.2", "popCompareEqualityAndPush operand order", fd.Pos(), "comparators get (left,right) = (second-popped, first-popped)", "a comparator receives its operands in the wrong order")
-		// the nodeset arm delegates with the same comparators and operands
-		cns := w.Method("xpath", "context", "compareNodesetsAndPush")
-		calls := allCallsTo(p, fd.Body, cns)
-		okD := len(calls) == 1 && len(calls[0].Args) == 6
-		if okD {
-			for i := 0; i < 3; i++ {
-				if objOfIdent(p, calls[0].Args[i]) != paramObj(p, fd, i) {
-					okD = false
-				}
-			}
-			if objOfIdent(p, calls[0].Args[4]) != popped[1] || objOfIdent(p, calls[0].Args[5]) != popped[0] {
-				okD = false
-			}
-		}
-		r.Check(okD, "R01.2", "popCompareEqualityAndPush node-set delegation", fd.Pos(), "same comparators, (left,right)", "the node-set arm permutes comparators or operands")
-	}
-	// --- popCompareRelationalAndPush
-	rel := w.Method("xpath", "context", "popCompareRelationalAndPush")
-	rfd, rp := w.FuncDecl(rel)
-	var rpopped []types.Object
-	for _, s := range rfd.Body.List {
-		if as, ok := s.(*ast.AssignStmt); ok && len(as.Rhs) == 1 {
-			if ce, ok := as.Rhs[0].(*ast.CallExpr); ok && calleeOf(rp, ce) == popDatum {
-				rpopped = append(rpopped, objOfIdent(rp, as.Lhs[0]))
-			}
-		}
-	}
-	okRel := false
-	ast.Inspect(rfd.Body, func(n ast.Node) bool {
-		cc, ok := n.(*ast.CaseClause)
-		if !ok || cc.List != nil {
-			return true
-		}
-		// default arm: numFn(op1, op2)
-		ast.Inspect(cc, func(x ast.Node) bool {
-			if ce, ok := x.(*ast.CallExpr); ok && len(ce.Args) == 2 && objOfIdent(rp, ce.Fun) == paramObj(rp, rfd, 2) && len(rpopped) == 2 {
-				if objOfIdent(rp, ce.Args[0]) == rpopped[1] && objOfIdent(rp, ce.Args[1]) == rpopped[0] {
-					okRel = true
-				}
-			}
-			return true
-		})
-		return true
-	})
-	r.Check(okRel, "R01.2", "popCompareRelationalAndPush default arm", rfd.Pos(), "numFn(left, right)", "non-node-set operands of a relational operator are not compared as numbers in (left,right) order")
+	c01Dispatch(w, r)
 	// --- compareNodesetsAndPush: empty set ⇒ false, before any comparator; operand order
 	c01NodesetGuards(w, r)
 	newBool := w.Func("xpath", "NewBoolDatum")
@@ -1190,5 +1037,142 @@ func resultAccessors(w *World, r *Report, rule string) {
 			why = "one of the three exits is missing"
 		}
 		r.Check(why == "", rule, "Result."+c.meth, f.Pos(), "runErr first, then nil value, then value."+c.conv+"()", "accessor does not return the run error first / the missing-value error second / the "+c.conv+" conversion last: "+why)
+	}
+}
+
+// c01Dispatch (R01.2): the type selection of '=' / '!=' and of the relational
+// operators, read off the path conditions of the comparator calls.  The two
+// operands are the two popDatum results (first popped = right operand).  For
+// equality: the node-set routine is entered iff either operand is a node-set;
+// else the boolean comparator iff either is a boolean; else the number
+// comparator iff either is a number; else the string comparator iff either is
+// a string — every comparator receiving (left, right).  Relational: node-set
+// routine iff either operand is a node-set, the number comparator otherwise.
+func c01Dispatch(w *World, r *Report) {
+	popDatum := w.Method("xpath", "context", "popDatum")
+	cns := w.Method("xpath", "context", "compareNodesetsAndPush")
+	kindOfType := map[string]string{"nodesetDatum": "ns", "boolDatum": "b", "numDatum": "n", "litDatum": "l"}
+	kindOfPred := map[string]string{"isNodeset": "ns", "isBool": "b", "isNum": "n", "isLiteral": "l"}
+	for _, spec := range []struct {
+		meth     string
+		equality bool
+	}{{"popCompareEqualityAndPush", true}, {"popCompareRelationalAndPush", false}} {
+		f := w.SSAFunc(w.Method("xpath", "context", spec.meth))
+		if f == nil || len(f.Params) != 5 || len(ssaLoops(f)) > 0 {
+			r.Fail("R01.2", spec.meth+" shape", token.NoPos, "expected (bool, string, number comparators, operator) and no loop")
+			continue
+		}
+		// the pops, in execution order
+		var pops []*ssa.Call
+		for _, b := range f.DomPreorder() {
+			for _, in := range b.Instrs {
+				if c, ok := in.(*ssa.Call); ok && c.Call.StaticCallee() != nil && c.Call.StaticCallee().Object() == types.Object(popDatum) {
+					pops = append(pops, c)
+				}
+			}
+		}
+		if len(pops) != 2 {
+			r.Fail("R01.2", spec.meth+" shape", f.Pos(), "expected two pops")
+			continue
+		}
+		right, left := ssa.Value(pops[0]), ssa.Value(pops[1])
+		sym := NewSym(w)
+		lk, rk := sym.Key(left, nil), sym.Key(right, nil)
+		classify := func(a *pcAtom) string {
+			// is<Kind>(operand), read through or not
+			for i, k := range []string{lk, rk} {
+				for tn, kind := range kindOfType {
+					if a.key == k+".(xpath."+tn+")#1" {
+						return fmt.Sprintf("%s%d", kind, i+1)
+					}
+				}
+			}
+			if c, ok := a.v.(*ssa.Call); ok && c.Call.StaticCallee() != nil && len(c.Call.Args) == 1 {
+				if kind, ok := kindOfPred[nm(c.Call.StaticCallee())]; ok {
+					if c.Call.Args[0] == left {
+						return kind + "1"
+					}
+					if c.Call.Args[0] == right {
+						return kind + "2"
+					}
+				}
+			}
+			return ""
+		}
+		either := func(env map[string]bool, k string) bool { return env[k+"1"] || env[k+"2"] }
+		wantOf := map[string]func(env map[string]bool) bool{
+			"nodeset": func(env map[string]bool) bool { return either(env, "ns") },
+			"bool":    func(env map[string]bool) bool { return !either(env, "ns") && either(env, "b") },
+			"num": func(env map[string]bool) bool {
+				if spec.equality {
+					return !either(env, "ns") && !either(env, "b") && either(env, "n")
+				}
+				return !either(env, "ns")
+			},
+			"lit": func(env map[string]bool) bool {
+				return !either(env, "ns") && !either(env, "b") && !either(env, "n") && either(env, "l")
+			},
+		}
+		seen := map[string]bool{}
+		order, args, deleg := "", "", ""
+		for _, b := range f.Blocks {
+			for _, in := range b.Instrs {
+				c, ok := in.(*ssa.Call)
+				if !ok {
+					continue
+				}
+				which := ""
+				var a0, a1 ssa.Value
+				switch {
+				case c.Call.StaticCallee() != nil && c.Call.StaticCallee().Object() == types.Object(cns):
+					which = "nodeset"
+					if len(c.Call.Args) == 7 {
+						a0, a1 = c.Call.Args[5], c.Call.Args[6]
+						for i := 1; i <= 4; i++ {
+							if c.Call.Args[i] != ssa.Value(f.Params[i]) {
+								deleg = "the node-set routine gets the comparators or the operator in another order"
+							}
+						}
+					}
+				case c.Call.Value == ssa.Value(f.Params[1]):
+					which = "bool"
+				case c.Call.Value == ssa.Value(f.Params[2]):
+					which = "lit"
+				case c.Call.Value == ssa.Value(f.Params[3]):
+					which = "num"
+				default:
+					continue
+				}
+				if which != "nodeset" && len(c.Call.Args) == 2 {
+					a0, a1 = c.Call.Args[0], c.Call.Args[1]
+				}
+				seen[which] = true
+				if a0 != left || a1 != right {
+					args = "the " + which + " comparison receives its operands in the wrong order"
+				}
+				if msg := pcCompare(sym.PathCond(f.Blocks[0], b, nil), classify, wantOf[which]); msg != "" {
+					order = "the " + which + " comparison is selected under the wrong condition: " + msg
+				}
+			}
+		}
+		wantKinds := []string{"nodeset", "num"}
+		if spec.equality {
+			wantKinds = []string{"nodeset", "bool", "num", "lit"}
+		}
+		for _, k := range wantKinds {
+			if !seen[k] && order == "" {
+				order = "no " + k + " comparison"
+			}
+		}
+		if !spec.equality && (seen["bool"] || seen["lit"]) {
+			order = "a relational operator compares as boolean or string"
+		}
+		if spec.equality {
+			r.Check(order == "", "R01.2", spec.meth+" case order", f.Pos(), "node-set, then boolean, then number, then string", "type selection differs from XPath §3.4 (node-set first, then boolean compared as booleans, then number, then string): "+order)
+			r.Check(args == "", "R01.2", spec.meth+" operand order", f.Pos(), "comparators get (left,right) = (second-popped, first-popped)", "a comparator receives its operands in the wrong order: "+args)
+			r.Check(deleg == "" && seen["nodeset"], "R01.2", spec.meth+" node-set delegation", f.Pos(), "same comparators, (left,right)", "the node-set arm permutes comparators or operands: "+deleg)
+		} else {
+			r.Check(order == "" && args == "" && deleg == "", "R01.2", spec.meth+" default arm", f.Pos(), "numFn(left, right)", "non-node-set operands of a relational operator are not compared as numbers in (left,right) order: "+order+args+deleg)
+		}
 	}
 }
